@@ -1,9 +1,17 @@
-(* Proofs about Model/Bloom.v. *)
-From DS Require Import Base.Prelude Model.Bloom.
+(* Proofs about Model/Bloom.v:
+     - the bit array is exactly the set of positions of the inserted items (Rep),
+       through insert / contains_and_insert / union / intersect / invert / reset / codec;
+     - contains = "all positions of the item are in the set", hence no false negatives;
+     - num_bits_set is the number of set positions after every operation;
+     - deserialize (serialize f) = Ok f for every well-formed filter.
+   The digests (h0, h1) of the items are ARBITRARY numbers here, so everything holds for
+   the crate's XXH64-derived digests in particular. *)
+From DS Require Import Base.Prelude Model.Bloom Proofs.BloomBits.
 From Coq Require Import ZifyBool ZifyNat ZifyN.
 Ltac Zify.zify_post_hook ::= Z.div_mod_to_equations.
 Open Scope N_scope.
 
+(* ---------- positions ---------- *)
 Lemma bit_index_lt cap h0 h1 i : 0 < cap -> bit_index cap h0 h1 i < cap.
 Proof. intros H. unfold bit_index. apply N.mod_lt. lia. Qed.
 
@@ -11,4 +19,707 @@ Theorem positions_range cap nh h0 h1 p : 0 < cap -> In p (positions cap nh h0 h1
 Proof.
   intros Hc Hin. unfold positions in Hin. apply in_map_iff in Hin. destruct Hin as [i [<- _]].
   apply bit_index_lt; auto.
+Qed.
+
+(* the index arithmetic of compute_bit_index is the property's formula *)
+Theorem bit_index_formula cap h0 h1 i :
+  bit_index cap h0 h1 i = ((h0 + i * h1) mod 2 ^ 64 / 2) mod cap.
+Proof.
+  unfold bit_index, add64, mul64. change M64 with (2 ^ 64).
+  rewrite N.add_mod_idemp_r by (apply pow2_ne0). rewrite N.shiftr_div_pow2. reflexivity.
+Qed.
+
+Theorem positions_formula cap nh h0 h1 p :
+  In p (positions cap nh h0 h1) <->
+  exists i, 1 <= i <= nh /\ p = ((h0 + i * h1) mod 2 ^ 64 / 2) mod cap.
+Proof.
+  unfold positions. rewrite in_map_iff. split.
+  - intros [k [<- Hk]]. apply in_seq in Hk. exists (N.of_nat k). split; [lia|apply bit_index_formula].
+  - intros [i [Hi ->]]. exists (N.to_nat i). rewrite N2Nat.id. split; [apply bit_index_formula|].
+    apply in_seq. lia.
+Qed.
+
+Lemma positions_nonempty cap nh h0 h1 : 1 <= nh -> In (bit_index cap h0 h1 1) (positions cap nh h0 h1).
+Proof.
+  intros H. unfold positions. apply in_map_iff. exists 1%nat. split; [reflexivity|]. apply in_seq. lia.
+Qed.
+
+(* ---------- the bit at position p of a word array ---------- *)
+Definition wbit (ws : list N) (p : N) : bool := N.testbit (nthN ws (p / 64) 0) (p mod 64).
+
+Lemma get_bit_spec ws p : get_bit ws p = wbit ws p.
+Proof.
+  unfold get_bit, wbit. rewrite shiftr6, land63, N.shiftl_1_l, land_pow2.
+  destruct (N.testbit _ _).
+  - pose proof (pow2_ne0 (p mod 64)). replace (2 ^ (p mod 64) =? 0) with false by lia. reflexivity.
+  - reflexivity.
+Qed.
+
+Lemma wbit_beyond ws p : 64 * N.of_nat (length ws) <= p -> wbit ws p = false.
+Proof.
+  intros H. unfold wbit, nthN. rewrite nth_overflow by lia. apply N.bits_0.
+Qed.
+
+Lemma wbit_cons_low w ws i : i < 64 -> wbit (w :: ws) i = N.testbit w i.
+Proof.
+  intros H. unfold wbit, nthN. rewrite N.div_small, N.mod_small by auto. reflexivity.
+Qed.
+
+Lemma wbit_cons_high w ws i : wbit (w :: ws) (i + 64) = wbit ws i.
+Proof.
+  unfold wbit, nthN. replace ((i + 64) / 64) with (i / 64 + 1) by lia.
+  replace ((i + 64) mod 64) with (i mod 64) by lia.
+  replace (N.to_nat (i / 64 + 1)) with (S (N.to_nat (i / 64))) by lia. reflexivity.
+Qed.
+
+(* number of set positions of the array = "population count of the array" *)
+Definition count_bits (ws : list N) : N := count_below (wbit ws) (64 * length ws).
+
+Definition words_ok (ws : list N) : Prop := Forall (fun w => w < 2 ^ 64) ws.
+
+Lemma popcount_words_count ws : words_ok ws -> popcount_words ws = count_bits ws.
+Proof.
+  unfold count_bits, popcount_words. induction 1 as [|w ws Hw Hws IH]; [reflexivity|].
+  cbn [map sumN length]. replace (64 * S (length ws))%nat with (64 + 64 * length ws)%nat by lia.
+  rewrite count_split, IH. f_equal.
+  - rewrite (popcount_count 64) by exact Hw. apply count_ext. intros i Hi.
+    rewrite wbit_cons_low; auto.
+  - apply count_ext. intros i _. change (N.of_nat 64) with 64. rewrite wbit_cons_high. reflexivity.
+Qed.
+
+(* ---------- well-formed filters ---------- *)
+Record wf (f : bloom) : Prop := mkWf {
+  wf_nh    : 1 <= bf_nh f <= 32767;
+  wf_seed  : bf_seed f < 2 ^ 64;
+  wf_len   : 0 < N.of_nat (length (bf_words f)) < 2 ^ 31;
+  wf_words : words_ok (bf_words f);
+  wf_used  : bf_used f = count_bits (bf_words f)
+}.
+
+(* same configuration (what is_compatible compares, plus nothing else changes it) *)
+Definition same_cfg (f g : bloom) : Prop :=
+  bf_nh g = bf_nh f /\ bf_seed g = bf_seed f /\ length (bf_words g) = length (bf_words f).
+
+Lemma same_cfg_refl f : same_cfg f f.
+Proof. repeat split. Qed.
+
+Lemma same_cfg_trans f g h : same_cfg f g -> same_cfg g h -> same_cfg f h.
+Proof. unfold same_cfg. intuition congruence. Qed.
+
+Lemma same_cfg_capacity f g : same_cfg f g -> bf_capacity g = bf_capacity f.
+Proof. unfold same_cfg, bf_capacity. intros (_ & _ & ->). reflexivity. Qed.
+
+Lemma wf_capacity_pos f : wf f -> 0 < bf_capacity f.
+Proof. intros [_ _ Hl _ _]. unfold bf_capacity. lia. Qed.
+
+Lemma wf_used_le f : wf f -> bf_used f <= bf_capacity f.
+Proof.
+  intros [_ _ _ _ Hu]. rewrite Hu. unfold count_bits, bf_capacity.
+  pose proof (count_le (wbit (bf_words f)) (64 * length (bf_words f))). lia.
+Qed.
+
+(* ---------- set_bit ---------- *)
+Lemma set_bit_spec f p :
+  set_bit f p =
+  if wbit (bf_words f) p then f
+  else mkBloom (bf_seed f) (bf_nh f) (bf_used f + 1)
+         (set_nthN (p / 64) (N.lor (nthN (bf_words f) (p / 64) 0) (2 ^ (p mod 64))) (bf_words f)).
+Proof.
+  unfold set_bit, wbit. rewrite shiftr6, land63, N.shiftl_1_l, land_pow2.
+  destruct (N.testbit _ _).
+  - pose proof (pow2_ne0 (p mod 64)). replace (2 ^ (p mod 64) =? 0) with false by lia. reflexivity.
+  - reflexivity.
+Qed.
+
+Lemma wbit_set ws p q : p < 64 * N.of_nat (length ws) ->
+  wbit (set_nthN (p / 64) (N.lor (nthN ws (p / 64) 0) (2 ^ (p mod 64))) ws) q = (q =? p) || wbit ws q.
+Proof.
+  intros Hp. unfold wbit. destruct (N.eq_dec (q / 64) (p / 64)) as [E|E].
+  - rewrite E. unfold nthN, set_nthN. rewrite nth_set_nth_eq by lia. rewrite lor_pow2_bits.
+    f_equal. lia.
+  - unfold nthN, set_nthN. rewrite nth_set_nth_neq by lia.
+    replace (q =? p) with false; [reflexivity|]. symmetry. apply N.eqb_neq. intros ->. congruence.
+Qed.
+
+Lemma set_bit_wf f p : wf f -> p < bf_capacity f ->
+  wf (set_bit f p) /\ same_cfg f (set_bit f p) /\
+  forall q, wbit (bf_words (set_bit f p)) q = (q =? p) || wbit (bf_words f) q.
+Proof.
+  intros Hwf Hp. rewrite set_bit_spec. destruct (wbit (bf_words f) p) eqn:Eb.
+  - split; [auto|]. split; [apply same_cfg_refl|]. intros q.
+    destruct (N.eqb_spec q p) as [->|]; [rewrite Eb|]; reflexivity.
+  - destruct Hwf as [Hnh Hseed Hlen Hws Hu]. unfold bf_capacity in Hp.
+    assert (Hp' : p < 64 * N.of_nat (length (bf_words f))) by lia.
+    split; [|split].
+    + constructor; cbn [bf_nh bf_seed bf_used bf_words]; auto.
+      * unfold set_nthN. rewrite set_nth_length. auto.
+      * apply Forall_set_nth; auto. apply lor_lt.
+        -- unfold nthN. apply (Forall_nth_d (fun w => w < 2 ^ 64)); auto. apply N.neq_0_lt_0, pow2_ne0.
+        -- apply pow2_lt. lia.
+      * rewrite Hu. unfold count_bits, set_nthN. rewrite set_nth_length. symmetry.
+        apply count_set with (p := p); auto; [lia|]. intros q. apply wbit_set; auto.
+    + unfold same_cfg; cbn [bf_nh bf_seed bf_words]. unfold set_nthN. rewrite set_nth_length. auto.
+    + intros q. cbn [bf_words]. apply wbit_set; auto.
+Qed.
+
+Lemma fold_set_bit_wf : forall l f, wf f -> (forall p, In p l -> p < bf_capacity f) ->
+  wf (fold_left set_bit l f) /\ same_cfg f (fold_left set_bit l f) /\
+  forall q, wbit (bf_words (fold_left set_bit l f)) q = true <-> In q l \/ wbit (bf_words f) q = true.
+Proof.
+  induction l as [|p l IH]; intros f Hwf Hl; cbn [fold_left].
+  - split; [auto|]. split; [apply same_cfg_refl|]. intros q. cbn [In]. tauto.
+  - destruct (set_bit_wf f p Hwf (Hl p (or_introl eq_refl))) as (Hwf1 & Hc1 & Hb1).
+    destruct (IH (set_bit f p) Hwf1) as (Hwf2 & Hc2 & Hb2).
+    { intros q Hq. rewrite (same_cfg_capacity _ _ Hc1). apply Hl. right; auto. }
+    split; [auto|]. split; [eapply same_cfg_trans; eauto|].
+    intros q. rewrite Hb2, Hb1. cbn [In]. destruct (N.eqb_spec q p) as [->|Hne]; cbn [orb]; intuition congruence.
+Qed.
+
+(* ---------- Rep: the array denotes the set S of positions ---------- *)
+Definition Rep (f : bloom) (S : N -> Prop) : Prop :=
+  wf f /\ forall p, wbit (bf_words f) p = true <-> S p.
+
+(* the positions an item occupies in filter f *)
+Definition item_positions (f : bloom) (h0 h1 : N) : list N :=
+  positions (bf_capacity f) (bf_nh f) h0 h1.
+
+Lemma item_positions_cfg f g h0 h1 : same_cfg f g -> item_positions g h0 h1 = item_positions f h0 h1.
+Proof.
+  intros H. unfold item_positions. rewrite (same_cfg_capacity _ _ H). destruct H as (-> & _). reflexivity.
+Qed.
+
+Theorem insert_rep f S h0 h1 : Rep f S ->
+  Rep (bf_insert f h0 h1) (fun p => S p \/ In p (item_positions f h0 h1)) /\ same_cfg f (bf_insert f h0 h1).
+Proof.
+  intros [Hwf HS]. unfold bf_insert, set_bits.
+  destruct (fold_set_bit_wf (positions (bf_capacity f) (bf_nh f) h0 h1) f Hwf) as (Hwf' & Hc & Hb).
+  { intros p Hp. eapply positions_range; eauto. apply wf_capacity_pos; auto. }
+  split; [|auto]. split; [auto|]. intros p. rewrite Hb, HS. unfold item_positions. tauto.
+Qed.
+
+Lemma check_bits_spec f h0 h1 :
+  check_bits f h0 h1 = true <-> forall p, In p (item_positions f h0 h1) -> wbit (bf_words f) p = true.
+Proof.
+  unfold check_bits, item_positions. rewrite forallb_forall.
+  split; intros H p Hp; specialize (H p Hp); rewrite get_bit_spec in *; auto.
+Qed.
+
+(* contains answers exactly "all positions of the item are in the set" *)
+Theorem contains_rep f S h0 h1 : Rep f S ->
+  (bf_contains f h0 h1 = true <-> forall p, In p (item_positions f h0 h1) -> S p).
+Proof.
+  intros [Hwf HS]. unfold bf_contains, bf_is_empty. destruct (bf_used f =? 0) eqn:E.
+  - split; [discriminate|]. intros H. exfalso.
+    pose proof (wf_capacity_pos f Hwf) as Hcap. destruct Hwf as [Hnh _ _ _ Hu].
+    pose proof (positions_nonempty (bf_capacity f) (bf_nh f) h0 h1 (proj1 Hnh)) as Hin.
+    apply H, HS in Hin.
+    assert (Hz : count_bits (bf_words f) = 0) by lia. unfold count_bits in Hz.
+    rewrite (count_zero _ _ Hz) in Hin; [discriminate|].
+    pose proof (bit_index_lt (bf_capacity f) h0 h1 1 Hcap). unfold bf_capacity in *. lia.
+  - rewrite check_bits_spec. split; intros H p Hp; apply HS; auto.
+Qed.
+
+Theorem contains_and_insert_rep f S h0 h1 : Rep f S ->
+  let '(b, f') := bf_contains_and_insert f h0 h1 in
+  (b = true <-> forall p, In p (item_positions f h0 h1) -> S p) /\
+  Rep f' (fun p => S p \/ In p (item_positions f h0 h1)) /\ same_cfg f f'.
+Proof.
+  intros HR. unfold bf_contains_and_insert. split.
+  - destruct HR as [Hwf HS]. rewrite check_bits_spec. split; intros H p Hp; apply HS; auto.
+  - apply (insert_rep f S h0 h1 HR).
+Qed.
+
+(* ---------- reset ---------- *)
+Lemma wbit_zeros (ws : list N) p : wbit (map (fun _ : N => 0) ws) p = false.
+Proof.
+  unfold wbit, nthN. replace (nth _ _ 0) with 0; [apply N.bits_0|].
+  generalize (N.to_nat (p / 64)). induction ws as [|w ws IH]; intros [|n]; cbn; auto.
+Qed.
+
+Theorem reset_rep f : wf f -> Rep (bf_reset f) (fun _ => False) /\ same_cfg f (bf_reset f).
+Proof.
+  intros [Hnh Hseed Hlen Hws Hu]. unfold bf_reset. split; [split|].
+  - constructor; cbn [bf_nh bf_seed bf_used bf_words]; auto.
+    + rewrite map_length. auto.
+    + clear. induction (bf_words f); cbn; constructor; auto. apply N.neq_0_lt_0, pow2_ne0.
+    + unfold count_bits. symmetry. apply count_all_false. intros. apply wbit_zeros.
+  - intros p. cbn [bf_words]. rewrite wbit_zeros. split; [discriminate|tauto].
+  - unfold same_cfg; cbn [bf_nh bf_seed bf_words]. rewrite map_length. auto.
+Qed.
+
+(* ---------- union / intersect ---------- *)
+Lemma compatible_spec a b :
+  bf_is_compatible a b = true <->
+  length (bf_words a) = length (bf_words b) /\ bf_nh a = bf_nh b /\ bf_seed a = bf_seed b.
+Proof.
+  unfold bf_is_compatible. rewrite !andb_true_iff, Nat.eqb_eq, !N.eqb_eq. tauto.
+Qed.
+
+Lemma wbit_zip g gb a b p : g 0 0 = 0 -> length a = length b ->
+  (forall x y n, N.testbit (g x y) n = gb (N.testbit x n) (N.testbit y n)) ->
+  wbit (zip_with g a b) p = gb (wbit a p) (wbit b p).
+Proof.
+  intros Hg Hl Hs. unfold wbit, nthN. rewrite nth_zip_with by auto. apply Hs.
+Qed.
+
+Lemma zip_wf g gb a b : wf a -> wf b -> bf_is_compatible a b = true ->
+  g 0 0 = 0 ->
+  (forall x y n, N.testbit (g x y) n = gb (N.testbit x n) (N.testbit y n)) ->
+  (forall x y, x < 2 ^ 64 -> y < 2 ^ 64 -> g x y < 2 ^ 64) ->
+  let ws := zip_with g (bf_words a) (bf_words b) in
+  let c := mkBloom (bf_seed a) (bf_nh a) (popcount_words ws) ws in
+  wf c /\ same_cfg a c /\ forall p, wbit (bf_words c) p = gb (wbit (bf_words a) p) (wbit (bf_words b) p).
+Proof.
+  intros [Hnh Hseed Hlen Hws Hu] Hb Hc Hg Hs Hlt ws c. apply compatible_spec in Hc. destruct Hc as (Hl & _).
+  assert (Hlen' : length ws = length (bf_words a)) by (apply zip_with_length; auto).
+  assert (Hok : words_ok ws) by (apply Forall_zip_with; auto; apply Hb).
+  split; [|split].
+  - constructor; cbn [c bf_nh bf_seed bf_used bf_words]; auto.
+    + rewrite Hlen'. auto.
+    + apply popcount_words_count; auto.
+  - unfold same_cfg; cbn [c bf_nh bf_seed bf_words]. auto.
+  - intros p. cbn [c bf_words]. apply wbit_zip; auto.
+Qed.
+
+Theorem union_rep a b S T : Rep a S -> Rep b T -> bf_is_compatible a b = true ->
+  exists c, bf_union a b = Ok c /\ Rep c (fun p => S p \/ T p) /\ same_cfg a c.
+Proof.
+  intros [Ha HS] [Hb HT] Hc. unfold bf_union. rewrite Hc. cbn [negb]. eexists. split; [reflexivity|].
+  destruct (zip_wf N.lor orb a b Ha Hb Hc eq_refl N.lor_spec) as (Hwf & Hcfg & Hbits).
+  { intros; apply lor_lt; auto. }
+  split; [split|]; auto. intros p. rewrite Hbits, orb_true_iff, HS, HT. tauto.
+Qed.
+
+Theorem intersect_rep a b S T : Rep a S -> Rep b T -> bf_is_compatible a b = true ->
+  exists c, bf_intersect a b = Ok c /\ Rep c (fun p => S p /\ T p) /\ same_cfg a c.
+Proof.
+  intros [Ha HS] [Hb HT] Hc. unfold bf_intersect. rewrite Hc. cbn [negb]. eexists. split; [reflexivity|].
+  destruct (zip_wf N.land andb a b Ha Hb Hc eq_refl N.land_spec) as (Hwf & Hcfg & Hbits).
+  { intros; apply land_lt; auto. }
+  split; [split|]; auto. intros p. rewrite Hbits, andb_true_iff, HS, HT. tauto.
+Qed.
+
+(* ---------- invert ---------- *)
+Lemma wbit_lnot ws p : p < 64 * N.of_nat (length ws) ->
+  wbit (map (fun w => N.lnot w 64) ws) p = negb (wbit ws p).
+Proof.
+  intros Hp. unfold wbit, nthN.
+  rewrite (nth_indep _ 0 (N.lnot 0 64)) by (rewrite map_length; lia).
+  rewrite (map_nth (fun w => N.lnot w 64)). apply N.lnot_spec_low. lia.
+Qed.
+
+Theorem invert_rep f S : Rep f S ->
+  exists g, bf_invert f = Ok g /\ Rep g (fun p => p < bf_capacity f /\ ~ S p) /\ same_cfg f g /\
+            bf_used g = bf_capacity f - bf_used f.
+Proof.
+  intros [Hwf HS]. pose proof (wf_used_le f Hwf) as Hle. unfold bf_invert.
+  replace (bf_capacity f <? bf_used f) with false by lia. eexists. split; [reflexivity|].
+  destruct Hwf as [Hnh Hseed Hlen Hws Hu].
+  split; [split|split]; [| | |reflexivity].
+  - constructor; cbn [bf_nh bf_seed bf_used bf_words]; auto.
+    + rewrite map_length. auto.
+    + clear -Hws. induction Hws; cbn; constructor; auto. apply lnot_lt; auto.
+    + unfold count_bits. rewrite map_length.
+      rewrite (count_ext _ (fun p => negb (wbit (bf_words f) p))).
+      * pose proof (count_neg (wbit (bf_words f)) (64 * length (bf_words f))) as Hn.
+        unfold count_bits in Hu. unfold bf_capacity. lia.
+      * intros i Hi. apply wbit_lnot. lia.
+  - intros p. cbn [bf_words]. unfold bf_capacity.
+    destruct (N.lt_ge_cases p (64 * N.of_nat (length (bf_words f)))) as [Hp|Hp].
+    + rewrite wbit_lnot by auto. rewrite negb_true_iff, <- HS. split.
+      * intros E. split; [lia|]. rewrite E. discriminate.
+      * intros [_ H]. destruct (wbit (bf_words f) p); auto. exfalso; auto.
+    + rewrite wbit_beyond by (rewrite map_length; auto). split; [discriminate|]. intros [H _]. lia.
+  - unfold same_cfg; cbn [bf_nh bf_seed bf_words]. rewrite map_length. auto.
+Qed.
+
+(* ---------- construction ---------- *)
+Definition size_ok (num_bits nh seed : N) : Prop :=
+  zN Gen.GenBloom.MIN_NUM_BITS <= num_bits <= MAX_NUM_BITS /\
+  zN Gen.GenBloom.MIN_NUM_HASHES <= nh <= zN Gen.GenBloom.MAX_NUM_HASHES /\ seed < 2 ^ 64.
+
+Definition fresh (num_bits nh seed : N) : bloom :=
+  mkBloom seed nh 0 (repeat 0 (N.to_nat (div_ceil num_bits 64))).
+
+Lemma gen_ranges :
+  1 <= zN Gen.GenBloom.MIN_NUM_BITS /\ MAX_NUM_BITS <= (2 ^ 31 - 1) * 64 /\
+  1 <= zN Gen.GenBloom.MIN_NUM_HASHES /\ zN Gen.GenBloom.MAX_NUM_HASHES <= 32767.
+Proof. vm_compute. repeat split; discriminate. Qed.
+
+Lemma wbit_repeat0 n p : wbit (repeat 0 n) p = false.
+Proof. unfold wbit, nthN. rewrite nth_repeat. apply N.bits_0. Qed.
+
+Theorem with_size_rep num_bits nh seed : size_ok num_bits nh seed ->
+  bf_with_size num_bits nh seed = Ok (fresh num_bits nh seed) /\
+  Rep (fresh num_bits nh seed) (fun _ => False) /\
+  bf_capacity (fresh num_bits nh seed) = 64 * div_ceil num_bits 64.
+Proof.
+  intros (Hb & Hh & Hs). pose proof gen_ranges as (G1 & G2 & G3 & G4).
+  unfold bf_with_size.
+  replace ((num_bits <? zN Gen.GenBloom.MIN_NUM_BITS) || (MAX_NUM_BITS <? num_bits)) with false by lia.
+  replace ((nh <? zN Gen.GenBloom.MIN_NUM_HASHES) || (zN Gen.GenBloom.MAX_NUM_HASHES <? nh)) with false by lia.
+  split; [reflexivity|].
+  assert (Hd : 0 < div_ceil num_bits 64 < 2 ^ 31).
+  { unfold div_ceil. change (2 ^ 31) with 2147483648. change (2 ^ 31 - 1) with 2147483647 in G2.
+    destruct (num_bits mod 64 =? 0) eqn:E; lia. }
+  unfold fresh. split; [split|].
+  - constructor; cbn [bf_nh bf_seed bf_used bf_words]; auto; try lia.
+    + rewrite repeat_length, N2Nat.id. auto.
+    + apply Forall_repeat. apply N.neq_0_lt_0, pow2_ne0.
+    + unfold count_bits. symmetry. apply count_all_false. intros. apply wbit_repeat0.
+  - intros p. cbn [bf_words]. rewrite wbit_repeat0. split; [discriminate|tauto].
+  - unfold bf_capacity; cbn [bf_words]. rewrite repeat_length, N2Nat.id. lia.
+Qed.
+
+(* ---------- codec ---------- *)
+(* what the round trip needs (weaker than wf: the count only has to be in range and to
+   be 0 only for an all-zero array) *)
+Record codec_ok (f : bloom) : Prop := mkCodecOk {
+  co_nh    : 1 <= bf_nh f <= 32767;
+  co_seed  : bf_seed f < 2 ^ 64;
+  co_len   : 0 < N.of_nat (length (bf_words f)) < 2 ^ 31;
+  co_words : words_ok (bf_words f);
+  co_used  : bf_used f <= bf_capacity f;
+  co_empty : bf_used f = 0 -> Forall (fun w => w = 0) (bf_words f)
+}.
+
+Lemma count_zero_words ws : words_ok ws -> count_bits ws = 0 -> Forall (fun w => w = 0) ws.
+Proof.
+  intros Hok. rewrite <- popcount_words_count by auto. unfold popcount_words.
+  induction Hok as [|w ws Hw Hws IH]; intros H; [constructor|]. cbn [map sumN] in H.
+  constructor; [|apply IH; lia].
+  assert (Hp : popcount w = 0) by lia. rewrite (popcount_count 64) in Hp by exact Hw.
+  apply (zero_of_bits w 64); auto. intros m Hm. apply (count_zero _ _ Hp). exact Hm.
+Qed.
+
+Lemma wf_codec_ok f : wf f -> codec_ok f.
+Proof.
+  intros Hwf. pose proof (wf_used_le f Hwf). destruct Hwf as [Hnh Hseed Hlen Hws Hu].
+  constructor; auto. intros H0. apply count_zero_words; auto. lia.
+Qed.
+
+Lemma read_words_flat ws tail : words_ok ws ->
+  read_words (length ws) (flat_map (le_bytes 8) ws ++ tail) = Ok ws.
+Proof.
+  induction 1 as [|w ws Hw Hws IH]; [reflexivity|].
+  cbn [length flat_map read_words]. rewrite <- app_assoc.
+  change (read_u64 (le_bytes 8 w ++ flat_map (le_bytes 8) ws ++ tail))
+    with (Some (le_val (le_bytes 8 w), flat_map (le_bytes 8) ws ++ tail)).
+  cbv beta iota. rewrite IH. cbn [obind]. rewrite le_val_le_bytes. change (256 ^ N.of_nat 8) with (2 ^ 64).
+  rewrite N.mod_small by exact Hw. reflexivity.
+Qed.
+
+Lemma flat_le8_length ws : length (flat_map (le_bytes 8) ws) = (8 * length ws)%nat.
+Proof. induction ws as [|w ws IH]; [reflexivity|]. cbn [flat_map]. rewrite app_length, le_bytes_length, IH. cbn [length]. lia. Qed.
+
+Lemma gen_codec_facts :
+  zN Gen.GenCodec.FAMILY_BLOOMFILTER_MIN_PRE_LONGS <= zN Gen.GenCodec.FAMILY_BLOOMFILTER_MAX_PRE_LONGS /\
+  zN Gen.GenBloom.EMPTY_FLAG_MASK <> 0 /\ zN Gen.GenBloom.DIRTY_BITS_VALUE = 2 ^ 64 - 1.
+Proof. vm_compute. repeat split; discriminate. Qed.
+
+Lemma zeros_repeat ws : Forall (fun w => w = 0) ws -> ws = repeat 0 (length ws).
+Proof. induction 1 as [|w ws -> _ IH]; cbn; [reflexivity|]. f_equal. exact IH. Qed.
+
+Theorem roundtrip f : codec_ok f -> bf_deserialize (bf_serialize f) = Ok f.
+Proof.
+  intros [Hnh Hseed Hlen Hws Hu He]. pose proof gen_codec_facts as (G1 & G2 & G3).
+  destruct f as [seed nh used ws]. cbn [bf_nh bf_seed bf_used bf_words] in *.
+  unfold bf_capacity in Hu. cbn [bf_words] in Hu.
+  unfold bf_serialize, bf_is_empty. cbn [bf_nh bf_seed bf_used bf_words].
+  set (len := N.of_nat (length ws)) in *.
+  set (e := used =? 0).
+  set (tail := if e then [] else le_bytes 8 used ++ flat_map (le_bytes 8) ws).
+  set (pre := zN (if e then Gen.GenCodec.FAMILY_BLOOMFILTER_MIN_PRE_LONGS else Gen.GenCodec.FAMILY_BLOOMFILTER_MAX_PRE_LONGS)).
+  set (flags := if e then zN Gen.GenBloom.EMPTY_FLAG_MASK else 0).
+  unfold bf_deserialize.
+  set (bs := [pre; zN Gen.GenBloom.SERIAL_VERSION; zN Gen.GenCodec.FAMILY_BLOOMFILTER_ID; flags] ++
+             le_bytes 2 nh ++ le_bytes 2 0 ++ le_bytes 8 seed ++ le_bytes 4 len ++ le_bytes 4 0 ++ tail).
+  assert (Hlenbs : length bs = (24 + length tail)%nat).
+  { unfold bs. rewrite !app_length, !le_bytes_length. cbn [length]. lia. }
+  replace (length bs <? 4)%nat with false by lia.
+  replace (length bs <? 6)%nat with false by lia.
+  replace (length bs <? 24)%nat with false by lia.
+  change (nth 0 bs 0) with pre. change (nth 1 bs 0) with (zN Gen.GenBloom.SERIAL_VERSION).
+  change (nth 2 bs 0) with (zN Gen.GenCodec.FAMILY_BLOOMFILTER_ID). change (nth 3 bs 0) with flags.
+  rewrite !N.eqb_refl. cbn [negb].
+  replace ((pre <? zN Gen.GenCodec.FAMILY_BLOOMFILTER_MIN_PRE_LONGS) || (zN Gen.GenCodec.FAMILY_BLOOMFILTER_MAX_PRE_LONGS <? pre))
+    with false by (unfold pre; destruct e; lia).
+  change (le_val (firstn 2 (skipn 4 bs))) with (le_val (le_bytes 2 nh)).
+  change (le_val (firstn 8 (skipn 8 bs))) with (le_val (le_bytes 8 seed)).
+  change (le_val (firstn 4 (skipn 16 bs))) with (le_val (le_bytes 4 len)).
+  change (skipn 24 bs) with tail.
+  rewrite !le_val_le_bytes.
+  change (256 ^ N.of_nat 2) with 65536. change (256 ^ N.of_nat 8) with (2 ^ 64). change (256 ^ N.of_nat 4) with 4294967296.
+  change (2 ^ 31) with 2147483648 in Hlen.
+  rewrite (N.mod_small nh) by lia. rewrite (N.mod_small seed) by lia. rewrite (N.mod_small len) by lia.
+  replace ((nh =? 0) || (32767 <? nh)) with false by lia.
+  replace ((len =? 0) || (2147483648 <=? len)) with false by lia.
+  unfold flags, tail. destruct e eqn:Ee; subst e.
+  - rewrite N.land_diag. replace (zN Gen.GenBloom.EMPTY_FLAG_MASK =? 0) with false by lia. cbn [negb].
+    assert (used = 0) by lia. subst used. unfold len. rewrite Nat2N.id.
+    rewrite <- zeros_repeat by auto. reflexivity.
+  - rewrite N.land_0_l. cbn [negb N.eqb].
+    change (read_u64 (le_bytes 8 used ++ flat_map (le_bytes 8) ws))
+      with (Some (le_val (le_bytes 8 used), flat_map (le_bytes 8) ws)).
+    rewrite le_val_le_bytes. change (256 ^ N.of_nat 8) with (2 ^ 64).
+    assert (Hused : used < 2 ^ 64 - 1).
+    { change (2 ^ 64) with 18446744073709551616. fold len in Hu. lia. }
+    rewrite (N.mod_small used) by lia.
+    rewrite flat_le8_length. replace (N.of_nat (8 * length ws) <? 8 * len) with false by (unfold len; lia).
+    unfold len. rewrite Nat2N.id.
+    rewrite <- (app_nil_r (flat_map (le_bytes 8) ws)), read_words_flat by auto. cbn [obind].
+    rewrite G3. replace (used =? 2 ^ 64 - 1) with false by lia.
+    replace (N.of_nat (length ws) <? div_ceil used 64) with false; [reflexivity|].
+    unfold div_ceil. fold len. destruct (used mod 64 =? 0) eqn:Em; lia.
+Qed.
+
+
+(* ---------- num_bits_set is the population count ---------- *)
+(* the positions of the array, 0 .. capacity-1 *)
+Definition all_positions (f : bloom) : list N := map N.of_nat (seq 0 (N.to_nat (bf_capacity f))).
+
+Theorem wf_bits_used f : wf f ->
+  bf_used f = N.of_nat (length (filter (get_bit (bf_words f)) (all_positions f))) /\
+  bf_used f = popcount_words (bf_words f).
+Proof.
+  intros Hwf. destruct Hwf as [_ _ _ Hws Hu]. split.
+  - rewrite Hu. unfold count_bits, all_positions, bf_capacity. rewrite count_below_card.
+    replace (N.to_nat (N.of_nat (length (bf_words f)) * 64)) with (64 * length (bf_words f))%nat by lia.
+    f_equal. f_equal. apply filter_ext. intros p. symmetry. apply get_bit_spec.
+  - rewrite Hu. symmetry. apply popcount_words_count; auto.
+Qed.
+
+Lemma Rep_ext f S T : Rep f S -> (forall p, S p <-> T p) -> Rep f T.
+Proof. intros [Hwf HS] H. split; auto. intros p. rewrite HS. apply H. Qed.
+
+(* ---------- every history ---------- *)
+(* A history is any expression built from a fresh filter by the public operations; the two
+   operands of union / intersect are histories themselves, and every sub-expression is a
+   history, so a statement about all histories is a statement about the state after every
+   operation of every interleaving. *)
+Inductive hist : Type :=
+| HNew
+| HInsert (h : hist) (h0 h1 : N)              (* insert(item) *)
+| HContainsAndInsert (h : hist) (h0 h1 : N)   (* contains_and_insert(item) *)
+| HUnion (a b : hist)
+| HIntersect (a b : hist)
+| HInvert (h : hist)
+| HReset (h : hist)
+| HRoundtrip (h : hist).                      (* deserialize(serialize()) *)
+
+Section Histories.
+Variables num_bits nh seed : N.
+
+Fixpoint eval (h : hist) : outcome bloom :=
+  match h with
+  | HNew => bf_with_size num_bits nh seed
+  | HInsert h h0 h1 => obind (eval h) (fun f => Ok (bf_insert f h0 h1))
+  | HContainsAndInsert h h0 h1 => obind (eval h) (fun f => Ok (snd (bf_contains_and_insert f h0 h1)))
+  | HUnion a b => obind (eval a) (fun f => obind (eval b) (fun g => bf_union f g))
+  | HIntersect a b => obind (eval a) (fun f => obind (eval b) (fun g => bf_intersect f g))
+  | HInvert h => obind (eval h) bf_invert
+  | HReset h => obind (eval h) (fun f => Ok (bf_reset f))
+  | HRoundtrip h => obind (eval h) (fun f => bf_deserialize (bf_serialize f))
+  end.
+
+(* capacity: the request rounded up to whole 64-bit words *)
+Definition cap : N := 64 * div_ceil num_bits 64.
+
+(* the positions of an item: ((h0 + i*h1) mod 2^64 >> 1) mod capacity, i = 1..num_hashes *)
+Definition pos_of (h0 h1 : N) : list N := positions cap nh h0 h1.
+
+(* Spec: the set of positions a history denotes *)
+Fixpoint denote (h : hist) : N -> Prop :=
+  match h with
+  | HNew => fun _ => False
+  | HInsert h h0 h1 => fun p => denote h p \/ In p (pos_of h0 h1)
+  | HContainsAndInsert h h0 h1 => fun p => denote h p \/ In p (pos_of h0 h1)
+  | HUnion a b => fun p => denote a p \/ denote b p
+  | HIntersect a b => fun p => denote a p /\ denote b p
+  | HInvert h => fun p => p < cap /\ ~ denote h p
+  | HReset h => fun _ => False
+  | HRoundtrip h => denote h
+  end.
+
+(* items whose membership the history guarantees *)
+Fixpoint member (h : hist) (x : N * N) : Prop :=
+  match h with
+  | HNew => False
+  | HInsert h h0 h1 => x = (h0, h1) \/ member h x
+  | HContainsAndInsert h h0 h1 => x = (h0, h1) \/ member h x
+  | HUnion a b => member a x \/ member b x
+  | HIntersect a b => member a x /\ member b x
+  | HInvert h => False
+  | HReset h => False
+  | HRoundtrip h => member h x
+  end.
+
+Hypothesis Hsize : size_ok num_bits nh seed.
+
+Let f0 := fresh num_bits nh seed.
+
+Lemma cfg_positions f h0 h1 : same_cfg f0 f -> item_positions f h0 h1 = pos_of h0 h1.
+Proof.
+  intros H. rewrite (item_positions_cfg _ _ h0 h1 H). unfold item_positions, pos_of, cap, f0.
+  destruct (with_size_rep _ _ _ Hsize) as (_ & _ & ->). reflexivity.
+Qed.
+
+Lemma cfg_capacity f : same_cfg f0 f -> bf_capacity f = cap.
+Proof.
+  intros H. rewrite (same_cfg_capacity _ _ H). unfold f0. destruct (with_size_rep _ _ _ Hsize) as (_ & _ & ->). reflexivity.
+Qed.
+
+Lemma cfg_compatible f g : same_cfg f0 f -> same_cfg f0 g -> bf_is_compatible f g = true.
+Proof. unfold same_cfg. intros (A & B & C) (A' & B' & C'). apply compatible_spec. intuition congruence. Qed.
+
+(* the refinement: every history runs without panic or error, and the resulting filter is
+   well formed, has the configured shape and denotes exactly the history's position set *)
+Theorem hist_rep : forall h, exists f, eval h = Ok f /\ Rep f (denote h) /\ same_cfg f0 f.
+Proof.
+  induction h as [|h IH h0 h1|h IH h0 h1|a IHa b IHb|a IHa b IHb|h IH|h IH|h IH]; cbn [eval denote].
+  - destruct (with_size_rep _ _ _ Hsize) as (E & HR & _). exists f0. split; [exact E|]. split; [exact HR|apply same_cfg_refl].
+  - destruct IH as (f & -> & HR & Hc). cbn [obind]. eexists. split; [reflexivity|].
+    destruct (insert_rep f _ h0 h1 HR) as (HR' & Hc'). split; [|exact (same_cfg_trans _ _ _ Hc Hc')].
+    eapply Rep_ext; [exact HR'|]. intros p. cbv beta. rewrite (cfg_positions f h0 h1 Hc). tauto.
+  - destruct IH as (f & -> & HR & Hc). cbn [obind]. eexists. split; [reflexivity|].
+    pose proof (contains_and_insert_rep f _ h0 h1 HR) as H.
+    destruct (bf_contains_and_insert f h0 h1) as [b f']. destruct H as (_ & HR' & Hc'). cbn [snd].
+    split; [|exact (same_cfg_trans _ _ _ Hc Hc')].
+    eapply Rep_ext; [exact HR'|]. intros p. cbv beta. rewrite (cfg_positions f h0 h1 Hc). tauto.
+  - destruct IHa as (f & -> & HRa & Hca). destruct IHb as (g & -> & HRb & Hcb). cbn [obind].
+    destruct (union_rep f g _ _ HRa HRb (cfg_compatible f g Hca Hcb)) as (c & E & HR & Hc).
+    exists c. split; [exact E|]. split; [exact HR|exact (same_cfg_trans _ _ _ Hca Hc)].
+  - destruct IHa as (f & -> & HRa & Hca). destruct IHb as (g & -> & HRb & Hcb). cbn [obind].
+    destruct (intersect_rep f g _ _ HRa HRb (cfg_compatible f g Hca Hcb)) as (c & E & HR & Hc).
+    exists c. split; [exact E|]. split; [exact HR|exact (same_cfg_trans _ _ _ Hca Hc)].
+  - destruct IH as (f & -> & HR & Hc). cbn [obind].
+    destruct (invert_rep f _ HR) as (g & E & HR' & Hc' & _). exists g. split; [exact E|].
+    split; [|exact (same_cfg_trans _ _ _ Hc Hc')].
+    eapply Rep_ext; [exact HR'|]. intros p. cbv beta. rewrite (cfg_capacity f Hc). tauto.
+  - destruct IH as (f & -> & HR & Hc). cbn [obind]. eexists. split; [reflexivity|].
+    destruct (reset_rep f (proj1 HR)) as (HR' & Hc'). split; [exact HR'|exact (same_cfg_trans _ _ _ Hc Hc')].
+  - destruct IH as (f & -> & HR & Hc). cbn [obind]. exists f. split; [|split; auto].
+    apply roundtrip. apply wf_codec_ok. apply HR.
+Qed.
+
+(* (a)+(b): contains answers exactly "every position of the item is in the history's set" *)
+Theorem hist_contains h f h0 h1 : eval h = Ok f ->
+  (bf_contains f h0 h1 = true <-> forall p, In p (pos_of h0 h1) -> denote h p).
+Proof.
+  intros E. destruct (hist_rep h) as (f' & E' & HR & Hc). rewrite E in E'. inversion E'; subst f'.
+  rewrite (contains_rep f _ h0 h1 HR). rewrite (cfg_positions f h0 h1 Hc). tauto.
+Qed.
+
+Lemma member_denote h h0 h1 : member h (h0, h1) -> forall p, In p (pos_of h0 h1) -> denote h p.
+Proof.
+  induction h as [|h IH a b|h IH a b|a IHa b IHb|a IHa b IHb|h IH|h IH|h IH]; cbn [member denote]; intros H p Hp;
+    try tauto.
+  - destruct H as [H|H]; [inversion H; subst; right; exact Hp|left; auto].
+  - destruct H as [H|H]; [inversion H; subst; right; exact Hp|left; auto].
+  - destruct H as [H|H]; [left|right]; auto.
+  - destruct H as [Ha Hb]. split; auto.
+  - auto.
+Qed.
+
+(* (b) no false negatives *)
+Theorem hist_no_false_negative h f h0 h1 : eval h = Ok f -> member h (h0, h1) -> bf_contains f h0 h1 = true.
+Proof. intros E Hm. apply (hist_contains h f h0 h1 E). apply member_denote; auto. Qed.
+
+(* the bits of the array are the set, read through the model's own get_bit *)
+Theorem hist_bits_exact h f : eval h = Ok f -> forall p, get_bit (bf_words f) p = true <-> denote h p.
+Proof.
+  intros E p. destruct (hist_rep h) as (f' & E' & HR & Hc). rewrite E in E'. inversion E'; subst f'.
+  rewrite get_bit_spec. apply HR.
+Qed.
+
+(* (c) bits_used = population count, (e) well-formedness and round trip of every reachable filter *)
+Theorem hist_wf h f : eval h = Ok f ->
+  wf f /\ bf_nh f = nh /\ bf_seed f = seed /\ bf_capacity f = cap /\
+  bf_used f = N.of_nat (length (filter (get_bit (bf_words f)) (all_positions f))) /\
+  bf_used f = popcount_words (bf_words f) /\
+  bf_deserialize (bf_serialize f) = Ok f.
+Proof.
+  intros E. destruct (hist_rep h) as (f' & E' & HR & Hc). rewrite E in E'. inversion E'; subst f'.
+  destruct HR as [Hwf _]. destruct (wf_bits_used f Hwf) as (H1 & H2).
+  split; [auto|]. pose proof Hc as (A & B & _). cbn [f0 fresh bf_nh bf_seed] in A, B.
+  split; [auto|]. split; [auto|]. split; [apply cfg_capacity; exact Hc|].
+  split; [auto|]. split; [auto|]. apply roundtrip, wf_codec_ok, Hwf.
+Qed.
+
+(* invert: bits_used becomes capacity - bits_used *)
+Theorem hist_invert_used h f g : eval h = Ok f -> eval (HInvert h) = Ok g -> bf_used g = cap - bf_used f.
+Proof.
+  intros E Eg. cbn [eval] in Eg. rewrite E in Eg. cbn [obind] in Eg.
+  destruct (hist_rep h) as (f' & E' & HR & Hc). rewrite E in E'. inversion E'; subst f'.
+  destruct (invert_rep f _ HR) as (g' & E2 & _ & _ & Hu). rewrite Eg in E2. inversion E2; subst g'.
+  rewrite Hu, (cfg_capacity f Hc). reflexivity.
+Qed.
+
+(* (a) for plain streams: after any sequence of insert / contains_and_insert calls the set
+   bits are exactly the positions of the items of the stream *)
+Definition stream_step (f : bloom) (x : bool * (N * N)) : bloom :=
+  let '(cai, (h0, h1)) := x in
+  if cai then snd (bf_contains_and_insert f h0 h1) else bf_insert f h0 h1.
+
+Fixpoint hist_of_stream (h : hist) (items : list (bool * (N * N))) : hist :=
+  match items with
+  | [] => h
+  | (cai, (h0, h1)) :: r => hist_of_stream (if cai then HContainsAndInsert h h0 h1 else HInsert h h0 h1) r
+  end.
+
+Lemma eval_stream : forall items h f, eval h = Ok f ->
+  eval (hist_of_stream h items) = Ok (fold_left stream_step items f).
+Proof.
+  induction items as [|[cai [h0 h1]] r IH]; intros h f E; cbn [hist_of_stream fold_left]; [exact E|].
+  apply IH. destruct cai; cbn [eval stream_step]; rewrite E; reflexivity.
+Qed.
+
+Lemma denote_stream : forall items h p,
+  denote (hist_of_stream h items) p <->
+  denote h p \/ exists cai h0 h1, In (cai, (h0, h1)) items /\ In p (pos_of h0 h1).
+Proof.
+  induction items as [|[cai [h0 h1]] r IH]; intros h p; cbn [hist_of_stream].
+  - split; [tauto|]. intros [H|(c & a & b & [] & _)]; auto.
+  - rewrite IH. split.
+    + intros [H|(c & a & b & Hin & Hp)].
+      * assert (H' : denote h p \/ In p (pos_of h0 h1)) by (destruct cai; exact H).
+        destruct H' as [H'|H']; [left; auto|right; exists cai, h0, h1; split; [left; reflexivity|exact H']].
+      * right. exists c, a, b. split; [right; auto|auto].
+    + intros [H|(c & a & b & [Hin|Hin] & Hp)].
+      * left. destruct cai; cbn [denote]; auto.
+      * inversion Hin; subst. left. destruct c; cbn [denote]; auto.
+      * right. exists c, a, b. auto.
+Qed.
+
+Theorem stream_bits_exact (items : list (bool * (N * N))) :
+  let f := fold_left stream_step items f0 in
+  forall p, get_bit (bf_words f) p = true <->
+            exists cai h0 h1, In (cai, (h0, h1)) items /\ In p (pos_of h0 h1).
+Proof.
+  intros f p. destruct (with_size_rep _ _ _ Hsize) as (E0 & _ & _).
+  pose proof (eval_stream items HNew f0 E0) as E. fold f in E.
+  rewrite (hist_bits_exact _ f E p), denote_stream. cbn [denote]. tauto.
+Qed.
+
+End Histories.
+
+(* the statements of Props/C09.v that combine several of the above *)
+Theorem hist_refines_set num_bits nh seed : size_ok num_bits nh seed ->
+  forall h : hist, exists f,
+    eval num_bits nh seed h = Ok f /\
+    (forall p, get_bit (bf_words f) p = true <-> denote num_bits nh h p) /\
+    wf f /\ bf_nh f = nh /\ bf_seed f = seed /\ bf_capacity f = cap num_bits.
+Proof.
+  intros Hs h. destruct (hist_rep num_bits nh seed Hs h) as (f & E & _ & _).
+  exists f. split; [exact E|]. split; [exact (hist_bits_exact num_bits nh seed Hs h f E)|].
+  destruct (hist_wf num_bits nh seed Hs h f E) as (A & B & C & D & _). auto.
+Qed.
+
+Theorem hist_bits_used num_bits nh seed : size_ok num_bits nh seed ->
+  forall h f, eval num_bits nh seed h = Ok f ->
+  bf_used f = N.of_nat (length (filter (get_bit (bf_words f)) (all_positions f))) /\
+  bf_used f = popcount_words (bf_words f) /\
+  bf_deserialize (bf_serialize f) = Ok f.
+Proof.
+  intros Hs h f E. destruct (hist_wf num_bits nh seed Hs h f E) as (_ & _ & _ & _ & A & B & C). auto.
 Qed.
